@@ -502,6 +502,9 @@ func (c *Ctx) sharedWrites(cbs []*ssa.Function, reach map[*ssa.Function]*Edge) [
 			what := ""
 			switch x := in.(type) {
 			case *ssa.Store:
+				if _, isConst := x.Val.(*ssa.Const); isConst {
+					return // a constant (failure flag) carries no per-file data
+				}
 				switch a := x.Addr.(type) {
 				case *ssa.FieldAddr:
 					base = a.X
@@ -887,39 +890,9 @@ func (c *Ctx) selfCleaning(gl *ssa.Global, cbs []*ssa.Function, reach map[*ssa.F
 	}
 	sort.Slice(cands, func(i, j int) bool { return load.FnName(cands[i]) < load.FnName(cands[j]) })
 	for _, f0 := range cands {
-		// (a) first access on every path is a reset store
-		okA := true
-		sawAny := false
-		env := newEnvAt(f0.Blocks[0])
-		c.explore(f0.Blocks[0], 0, env, exploreCB{
-			instr: func(in ssa.Instruction, e *pathEnv) bool {
-				// a store of an independent value to the variable itself
-				if st, ok := in.(*ssa.Store); ok && st.Addr == ssa.Value(gl) {
-					sawAny = true
-					if dependsOnGlobal(st.Val, gl, 0) {
-						okA = false
-					}
-					return true
-				}
-				touches := false
-				for _, op := range in.Operands(nil) {
-					if op != nil && *op == ssa.Value(gl) {
-						touches = true
-					}
-				}
-				if cc := callCommon(in); cc != nil {
-					if sf := staticFn(cc); sf != nil && touch[sf] {
-						touches = true
-					}
-				}
-				if touches {
-					sawAny = true
-					okA = false
-					return true
-				}
-				return false
-			},
-		})
+		// (a) first access on every path is a reset store (directly, or inside a helper
+		// whose own first access on every path is one)
+		okA, sawAny := c.resetsFirst(f0, gl, touch, 0)
 		if okA && sawAny {
 			return fmt.Sprintf("reset before use: every per-file access passes through %s, where the first access on every path stores a fresh value", load.FnName(f0))
 		}
@@ -1016,4 +989,51 @@ func writesThroughParam(fn *ssa.Function, p *ssa.Parameter) bool {
 		}
 	})
 	return found
+}
+
+// resetsFirst: on every path from fn's entry, is the first access to gl a store
+// of a value that does not depend on gl? A call to a repository function that
+// touches gl counts if that function has the same property.
+func (c *Ctx) resetsFirst(fn *ssa.Function, gl *ssa.Global, touch map[*ssa.Function]bool, depth int) (ok, sawAny bool) {
+	if depth > 3 || len(fn.Blocks) == 0 {
+		return false, true
+	}
+	ok = true
+	env := newEnvAt(fn.Blocks[0])
+	c.explore(fn.Blocks[0], 0, env, exploreCB{
+		instr: func(in ssa.Instruction, e *pathEnv) bool {
+			if st, isSt := in.(*ssa.Store); isSt && st.Addr == ssa.Value(gl) {
+				sawAny = true
+				if dependsOnGlobal(st.Val, gl, 0) {
+					ok = false
+				}
+				return true
+			}
+			if cc := callCommon(in); cc != nil {
+				if sf := staticFn(cc); sf != nil && touch[sf] {
+					sawAny = true
+					// the address of the variable handed over does not count as a reset
+					for _, a := range cc.Args {
+						if a == ssa.Value(gl) {
+							ok = false
+							return true
+						}
+					}
+					if subOK, subSaw := c.resetsFirst(sf, gl, touch, depth+1); !(subOK && subSaw) {
+						ok = false
+					}
+					return true
+				}
+			}
+			for _, op := range in.Operands(nil) {
+				if op != nil && *op == ssa.Value(gl) {
+					sawAny = true
+					ok = false
+					return true
+				}
+			}
+			return false
+		},
+	})
+	return ok, sawAny
 }
